@@ -1,5 +1,5 @@
 #!/bin/sh
-# tools/sweep.sh <seeds...> — quick tier of every check for several VERIF_SEED values, on a private snapshot of /repo's HEAD
+# [TIER=quick|thorough] [PROPS="C01 …"] tools/sweep.sh <seeds...> — one tier of the checks for several VERIF_SEED values, on a private snapshot of /repo's HEAD
 # when run under `vp run --with-repo` (so that experiments on /repo's working tree do not disturb it).  Prints one line per
 # (seed, property) that is not a plain OK.  Not evidence: a finding here is re-run in /verif against /repo itself.
 cd "$(dirname "$0")/.."
@@ -8,9 +8,11 @@ if [ -n "$VP_RUN_REPO" ]; then
   sed -i "s#=> /repo#=> $VP_RUN_REPO#" go/go.mod
 fi
 bin/setup >/dev/null 2>&1 || { echo "setup failed"; exit 2; }
+TIER=${TIER:-quick}
+PROPS=${PROPS:-C01 C02 C03 C04 C05 C06 C07 C08 C09 C10 C11 C12 C13 C14 C15 C16 C17 C18 C19}
 for s in "$@"; do
-  for p in C01 C02 C03 C04 C05 C06 C07 C08 C09 C10 C11 C12 C13 C14 C15 C16 C17 C18 C19; do
-    out=$(VERIF_SEED=$s bin/check $p --tier quick 2>&1 | grep -E '^(OK|VIOLATION|KNOWN-FINDING)' | tr '\n' ' ')
+  for p in $PROPS; do
+    out=$(VERIF_SEED=$s bin/check $p --tier $TIER 2>&1 | grep -E '^(OK|VIOLATION|KNOWN-FINDING)' | tr '\n' ' ')
     case "$out" in
       "OK "*) ;;
       "KNOWN-FINDING"*"OK "*) ;;
